@@ -91,6 +91,7 @@ type Term struct {
 	p1   int
 	p2   int
 	name string
+	fp   bool // some floating-point operation below this term
 }
 
 func (t *Term) IsConst() bool { return t.op == OpConst }
@@ -166,6 +167,12 @@ func (s *Store) mk(op Op, kind Kind, w int, p1, p2 int, args ...*Term) *Term {
 		return t
 	}
 	t := &Term{id: s.next, op: op, kind: kind, w: w, a: args, p1: p1, p2: p2}
+	t.fp = kind == KFP
+	for _, a := range args {
+		if a.fp || a.kind == KFP {
+			t.fp = true
+		}
+	}
 	s.next++
 	s.tab[k] = t
 	return t
@@ -573,7 +580,53 @@ func (s *Store) fcmp(op Op, x, y *Term) *Term {
 			return Bool(a == b)
 		}
 	}
+	if x == y {
+		// fp.eq(x, x) holds unless x is NaN; x <= x likewise
+		if op == OpFLt {
+			return tFalse
+		}
+		return s.Not(s.FIsNaN(x))
+	}
 	return s.mk(op, KBool, 0, 0, 0, x, y)
+}
+
+func finiteNonZero(t *Term) bool {
+	if !t.IsConst() {
+		return false
+	}
+	f := t.Float()
+	return f != 0 && !math.IsInf(f, 0) && !math.IsNaN(f)
+}
+
+// neverNaN: a syntactic sufficient condition.
+func neverNaN(t *Term) bool {
+	switch t.op {
+	case OpConst:
+		return !math.IsNaN(t.Float())
+	case OpFFromS, OpFFromU:
+		return true
+	case OpFNeg:
+		return neverNaN(t.a[0])
+	case OpFMul:
+		return (finiteNonZero(t.a[0]) && neverNaN(t.a[1])) || (finiteNonZero(t.a[1]) && neverNaN(t.a[0]))
+	case OpFDiv:
+		return (finiteNonZero(t.a[1]) && neverNaN(t.a[0])) || (finiteNonZero(t.a[0]) && neverNaN(t.a[1]))
+	case OpFAdd, OpFSub:
+		return (finiteNonZero(t.a[0]) && neverNaN(t.a[1])) || (finiteNonZero(t.a[1]) && neverNaN(t.a[0]))
+	case OpIte:
+		return neverNaN(t.a[1]) && neverNaN(t.a[2])
+	}
+	return false
+}
+
+func (s *Store) FIsNaN(x *Term) *Term {
+	if x.IsConst() {
+		return Bool(math.IsNaN(x.Float()))
+	}
+	if neverNaN(x) {
+		return tFalse
+	}
+	return s.mk(OpFIsNaN, KBool, 0, 0, 0, x)
 }
 
 func (s *Store) FNeg(x *Term) *Term {
@@ -810,9 +863,7 @@ func (s *Store) rebuild(t *Term, a []*Term) *Term {
 	case OpFToU:
 		return s.FToInt(a[0], t.w, false)
 	case OpFIsNaN:
-		if a[0].IsConst() {
-			return Bool(math.IsNaN(a[0].Float()))
-		}
+		return s.FIsNaN(a[0])
 	}
 	panic(engineError{fmt.Sprintf("rebuild: op %d", t.op)})
 }
